@@ -414,10 +414,17 @@ impl Store {
 
             // Handle heartbeat if requested
             if let FollowOption::WithHeartbeat(duration) = options.follow {
-                let heartbeat_tx = tx;
+                // The heartbeat must not keep the stream open on its own: it only holds a weak
+                // sender, so the stream ends once the live task (limit reached, subscriber
+                // lagged) and the historical replay are gone.
+                let heartbeat_tx = tx.downgrade();
+                drop(tx);
                 tokio::spawn(async move {
                     loop {
                         tokio::time::sleep(duration).await;
+                        let Some(heartbeat_tx) = heartbeat_tx.upgrade() else {
+                            break;
+                        };
                         let frame =
                             Frame::builder("xs.pulse", options.context_id.unwrap_or(ZERO_CONTEXT))
                                 .id(scru128::new())
